@@ -43,8 +43,8 @@ func (dn SuDnum) String() string {
 }
 
 func (dn SuDnum) Hash() uint64 {
-	if n, ok := dn.ToInt64(); ok && MinSuInt <= n && n <= MaxSuInt {
-		// must give the same hash as SuInt
+	if n, ok := dn.ToInt64(); ok {
+		// must give the same hash as the equal SuInt or SuInt64
 		return uint64(n) * phi64
 	}
 	return dn.Dnum.Hash()
